@@ -27,7 +27,7 @@ ASSUMPTIONS = [
 # remainder modulo pi/3 lands just below pi/3 instead of near 0.  With the switch on, generated histories route such an
 # angle through the blocks directly (label excluded:<sig>) so that the search continues past it.
 SIG_WRAP = "assembly/rotate-refuses-multiple-of-60/remainder-wraps"
-EXCLUDE_KNOWN = {SIG_WRAP: True}
+EXCLUDE_KNOWN = {SIG_WRAP: False}  # repaired in /repo (fix: commit bda37f8); the shape is searched again
 
 KS = list(range(-12, 13))
 _KS_SHRINK_ORDER = sorted(KS, key=lambda k: (abs(k), k < 0))  # uniform draw, shrinks towards small |k|
@@ -739,7 +739,7 @@ PARTS = [
          rule="every cell number of rings 1..N x orientation 0..5: hexagon.getIndexOfRotatedCell against rotating the cell in cube coordinates and "
               "re-reading its ring/position number; non-trivial = ring >= 2 and orientation != 0",
          bound=lambda t: "rings <= %d, orientations 0..5" % _CELLNUM_RINGS[t]),
-    Part("block_rotation", blockrot_execute, strategy=blockrot_strategy, budget={"quick": 6000, "thorough": 150000}, procs={"quick": 8, "thorough": 16},
+    Part("block_rotation", blockrot_execute, strategy=blockrot_strategy, budget={"quick": 6000, "thorough": 60000}, procs={"quick": 8, "thorough": 16},
          rule="Hypothesis: hex assemblies of 1-3 blocks with pin lattices (multi-index, single-index, free-coordinate and default-located "
               "children, with and without a block grid), six-vectors/scalars/short vectors on all corner and edge parameters, displacement, "
               "initial orientation; histories of 1-4 rotations by k*60 degrees (k in [-12,12], built as k*pi/3 or radians(60k)) applied to one block "
